@@ -583,12 +583,30 @@ static Outcome run_crc(const Case &c) {
   uint8_t *out = (uint8_t *)malloc(4);
   c01_crc_final(ctx, out);
   std::string got((char *)out, 4);
+  // CRC32C_Final takes a const context: it reads the running value.  Reading it twice gives the same answer, and the stream can go on
+  // (a logger that emits a running checksum after every record)
+  std::string again, got2, more;
+  if ((c[0].a[1] & 3) == 1) {
+    c01_crc_final(ctx, out);
+    again.assign((char *)out, 4);
+    more = make_bytes(0, (uint64_t)c[0].a[1] + 77, (size_t)(c[0].a[1] >> 2) % 40);
+    uint8_t *mb = exact(more.data(), more.size() ? more.size() : 1);
+    c01_crc_update(ctx, mb, more.size());
+    free(mb);
+    c01_crc_final(ctx, out);
+    got2.assign((char *)out, 4);
+    o.cls("crc32c: Final read twice, then the stream continues");
+  }
   free(out);
   free(ctx);
   o.cls(len == 0 ? "len:0" : len < 8 ? "len:1-7" : len <= 64 ? "len:8-64" : len <= 300 ? "len:65-300" : "len:301-4096");
   o.cls(nonempty <= 1 ? "updates:<=1" : nonempty <= 3 ? "updates:2-3" : "updates:>=4");
   o.nontrivial = len >= 8 && unaligned8;
   // the property's sentence: 1 || data || crc, LSB first, is a multiple of the Castagnoli polynomial
+  if (!again.empty() && again != got) o.fail("crc32c-final-twice", "CRC32C_Final called twice on the same (const) context gave " + hex(got) + " and then " + hex(again));
+  if (!got2.empty() && o.ok && crc_remainder(true, data + more + got2) != 0)
+    o.fail("crc32c-after-final", "CRC32C of " + std::to_string(len) + " bytes read with CRC32C_Final (" + hex(got) + "), then " + std::to_string(more.size()) + " more bytes: the second CRC32C_Final gives " + hex(got2) +
+                                     ", the multiple of the polynomial needs " + hex(crc_expected(data + more)));
   uint32_t rem = crc_remainder(true, data + got);
   if (rem != 0)
     o.fail("crc32c", "CRC32C of " + std::to_string(len) + " bytes fed as (len@offset) " + ptxt + " = " + hex(got) + "; 1||data||crc leaves remainder " +
@@ -727,6 +745,47 @@ static Outcome run_giant(int alg, const Case &c) {
   o.nontrivial = true;
   if (got != want)
     o.fail(std::string(ALG[alg]) + "-giant", std::string(ALG[alg]) + " of " + std::to_string(pre) + " + " + std::to_string(total) + " bytes (second update is ONE call) = " + hex(got) + ", OpenSSL EVP says " + hex(want));
+  return o;
+}
+// A key (HMAC, all three hashes) and a password (PBKDF2) of 2^32 + k bytes: zeros from an untouched mapping.  RFC 2104: a key longer than the block is
+// replaced by its hash, so the reference is OpenSSL's HMAC with K' = H(key) (OpenSSL's own key length is an int), H(key) by EVP streaming.
+static Outcome run_giant_key(const Case &c) {
+  Outcome o;
+  if (c.empty() || c[0].a.size() < 2) return o;
+  size_t klen = ((size_t)1 << 32) + (size_t)std::max<int64_t>(0, std::min<int64_t>(c[0].a[0], 1 << 20));
+  void *mp = mmap(nullptr, klen, PROT_READ, MAP_PRIVATE | MAP_ANONYMOUS | MAP_NORESERVE, -1, 0);
+  if (mp == MAP_FAILED) harness_error("mmap of 4 GiB failed");
+  std::string msg = prbytes(0x6b + (uint64_t)c[0].a[0], (size_t)(c[0].a[1] & 127));
+  for (int alg = 0; alg < 3 && o.ok; alg++) {
+  std::string kp;  // H(key)
+  {
+    EVP_MD_CTX *e = EVP_MD_CTX_new();
+    unsigned char w[EVP_MAX_MD_SIZE];
+    unsigned int wl = 0;
+    if (!e || EVP_DigestInit_ex(e, evp(alg), nullptr) != 1 || EVP_DigestUpdate(e, mp, klen) != 1 || EVP_DigestFinal_ex(e, w, &wl) != 1) harness_error("EVP digest of the key");
+    EVP_MD_CTX_free(e);
+    kp.assign((char *)w, wl);
+  }
+  uint8_t *mb = exact(msg.data(), msg.size() ? msg.size() : 1), *dg = (uint8_t *)malloc(DLEN[alg]);
+  c01_hmac_buf(alg, mp, klen, mb, msg.size(), dg);
+  std::string got((char *)dg, DLEN[alg]), want = ossl_hmac(alg, kp, msg);
+  o.cls(std::string("hmac-") + ALG[alg] + ": key of 2^32+" + (klen - ((size_t)1 << 32) <= 64 ? "0..64" : ">64") + " bytes");
+  o.nontrivial = true;
+  if (got != want)
+    o.fail(std::string("hmac-") + ALG[alg] + "-giant-key", std::string("HMAC-") + ALG[alg] + " with a key of " + std::to_string(klen) + " zero bytes over a " + std::to_string(msg.size()) + "-byte message = " + hex(got) +
+                                                               ", RFC 2104 (key replaced by its hash, OpenSSL HMAC) gives " + hex(want));
+  if (o.ok && alg == 0) {
+    uint8_t *sl = exact(msg.data(), msg.size() ? msg.size() : 1);
+    c01_pbkdf2_sha256((const uint8_t *)mp, klen, sl, msg.size(), 2, dg, 32);
+    free(sl);
+    std::string g2((char *)dg, 32), w2 = ref_pbkdf2(kp, msg, 2, 32);
+    o.cls("pbkdf2: password of 2^32+k bytes");
+    if (g2 != w2)
+      o.fail("pbkdf2-giant-password", "PBKDF2_SHA256 with a password of " + std::to_string(klen) + " zero bytes (salt " + std::to_string(msg.size()) + " bytes, c=2, dkLen=32) = " + hex(g2) + ", with the password replaced by its SHA-256 (RFC 2104) the RFC 8018 loop gives " + hex(w2));
+  }
+  free(mb), free(dg);
+  }
+  munmap(mp, klen);
   return o;
 }
 static void c01_crc_run(const uint8_t *p, size_t total, const size_t *cuts, size_t ncuts, uint8_t out[4]) {
@@ -928,6 +987,10 @@ int main(int argc, char **argv) {
                     "one update call of 2^32 + k bytes (k in 0..2^20) of zeros from an untouched anonymous mapping, after 0..65 ordinary bytes: a length which does not fit 32 bits. "
                     "Oracle: OpenSSL EVP fed the same two pieces. Every case non-trivial",
                     gen_giant, [alg](const Case &c) { return run_giant(alg, c); }});
+  subs.push_back({"giant-key",
+                  "HMAC (SHA-256, SHA-1 or MD5) with a key of 2^32 + k bytes (k in 0..70 mostly, up to 2^20), and for SHA-256 also PBKDF2 with that password; reference: OpenSSL HMAC keyed with the "
+                  "hash of the key (RFC 2104), the hash by EVP streaming. Every case non-trivial",
+                  gen_giant, run_giant_key});
   subs.push_back({"giant-pbkdf2",
                   "PBKDF2-HMAC-SHA256 with c = 1 and dkLen = 2^32 + 1..300 bytes (2^27 blocks; output written into aliased address space); T_1..T_3 and all blocks "
                   "from T_{2^27-2} on are compared with OpenSSL HMAC(P, S||INT(i)). Every case non-trivial",
